@@ -13,9 +13,14 @@ Definition blank_ok (w : bytes) : bool := forallb (fun c => blank_char c || (c =
 Definition no_lf (l : bytes) : bool := forallb (fun c => negb (c =? 10)) l.
 (* a visible ASCII character other than '#' *)
 Definition graphic (x : N) : bool := (33 <=? x) && (x <? 127).
-(* an entry line: starts with a visible character that is not '#', has no LF and no CR *)
-Definition entry_ok (l : bytes) : bool :=
+(* an entry line: after optional blanks it starts with a visible character that is not '#'; it has no LF and no CR *)
+Fixpoint drop_blank (l : bytes) : bytes :=
   match l with
+  | c :: r => if blank_char c then drop_blank r else l
+  | [] => []
+  end.
+Definition entry_ok (l : bytes) : bool :=
+  match drop_blank l with
   | x :: _ => graphic x && negb (x =? 35)
   | [] => false
   end && forallb (fun c => negb (c =? 10) && negb (c =? 13)) l.
@@ -138,11 +143,21 @@ Proof.
     destruct (IH Hl) as [-> ->]. split; reflexivity.
 Qed.
 
+Lemma drop_blank_split : forall l, exists w, l = w ++ drop_blank l /\ forallb blank_char w = true.
+Proof.
+  induction l as [|c l [w [E Hw]]]; [exists []; split; reflexivity|]. cbn [drop_blank].
+  destruct (blank_char c) eqn:Ec.
+  - exists (c :: w). split; [cbn [app]; now rewrite <- E|cbn [forallb]; now rewrite Ec, Hw].
+  - exists []. split; reflexivity.
+Qed.
+
 Lemma skip_entry : forall e, entry_ok e = true -> ssh_skip e = false /\ ssh_skip (e ++ [13]) = false.
 Proof.
   intros e H. unfold entry_ok in H. apply andb_prop in H as [Hh Hall].
   destruct (cut_at_none e Hall) as [C1 C2]. unfold ssh_skip. rewrite C1, C2.
-  destruct e as [|x t]; [discriminate|]. apply andb_prop in Hh as [Hg Hx].
+  destruct (drop_blank_split e) as [w [E Hw]].
+  destruct (drop_blank e) as [|x t]; [discriminate|]. apply andb_prop in Hh as [Hg Hx].
+  rewrite E. rewrite trim_space_rev, trim_left_skip_ws by exact Hw. rewrite <- trim_space_rev.
   destruct (trim_space_head x t Hg) as [t' ->]. split; lia.
 Qed.
 
@@ -1891,3 +1906,862 @@ Definition example_blocks : list (bytes * ablock) :=
    ([], mkablock (bs "PRIVATE KEY") [] [48; 2; 5; 0] 0 false false)].
 Lemma example_blocks_ok : bundle_text_ok example_blocks [] = true /\ length (listed_blocks example_blocks) = 4%nat.
 Proof. split; vm_compute; reflexivity. Qed.
+
+(* ====================================================================== *)
+(* Part H.  The lines of authorized_keys / known_hosts: fields, options, comment, CR *)
+
+Module B64h := WI.Model.Base64.
+
+(* the library looks at the text before the first CR only *)
+Lemma cut_at_app_same : forall c l x, cut_at c (l ++ c :: x) = cut_at c l.
+Proof.
+  intros c. induction l as [|y l IH]; intros x; cbn [app cut_at].
+  - now rewrite N.eqb_refl.
+  - destruct (y =? c); [reflexivity|]. now rewrite IH.
+Qed.
+
+Lemma auth_line_cr : forall key_of l x, auth_line key_of (l ++ 13 :: x) = auth_line key_of l.
+Proof. intros. unfold auth_line. now rewrite cut_at_app_same. Qed.
+Lemma hosts_line_cr : forall key_of l x, hosts_line key_of (l ++ 13 :: x) = hosts_line key_of l.
+Proof. intros. unfold hosts_line. now rewrite cut_at_app_same. Qed.
+
+Lemma no_lf_of_entry : forall e, entry_ok e = true -> no_lf e = true /\ no_lf (e ++ [13]) = true.
+Proof.
+  intros e H. unfold entry_ok in H. apply andb_prop in H as [_ H].
+  assert (Hn : no_lf e = true).
+  { unfold no_lf. rewrite forallb_forall in *. intros c Hc. specialize (H c Hc). lia. }
+  split; [exact Hn|]. unfold no_lf in *. now rewrite forallb_app, Hn.
+Qed.
+
+(* lib_accepts, second half, proved of the modelled line parsers: a CR at the end of an entry line makes no difference *)
+Lemma auth_lib_cr : forall key_of e, entry_ok e = true -> ssh_auth_lib key_of (e ++ [13]) = ssh_auth_lib key_of e.
+Proof.
+  intros key_of e H. destruct (no_lf_of_entry e H) as [H1 H2]. unfold ssh_auth_lib.
+  rewrite (split_lf_last _ H1), (split_lf_last _ H2). cbn [first_line]. now rewrite auth_line_cr.
+Qed.
+Lemma hosts_lib_cr : forall key_of e, entry_ok e = true -> ssh_hosts_lib key_of (e ++ [13]) = ssh_hosts_lib key_of e.
+Proof.
+  intros key_of e H. destruct (no_lf_of_entry e H) as [H1 H2]. unfold ssh_hosts_lib.
+  rewrite (split_lf_last _ H1), (split_lf_last _ H2). cbn [first_line]. now rewrite hosts_line_cr.
+Qed.
+
+Lemma model_accepts : forall lib, (forall e, entry_ok e = true -> lib (e ++ [13]) = lib e) ->
+  forall its, layout_ok its = true -> (forall e, In e (entries_of its) -> exists a, lib e = Ok a) ->
+  forall e, In e (entries_of its) -> lib_accepts lib e.
+Proof.
+  intros lib Hcr its Hok Hacc e He. destruct (Hacc e He) as [a Ha]. exists a. split; [exact Ha|].
+  rewrite Hcr; [exact Ha|]. now apply (entries_of_In_ok its).
+Qed.
+
+(* the file theorems with the modelled line parsers: the hypothesis about the CR is gone *)
+Lemma authorized_keys_model : forall key_of its le trail,
+  layout_ok its = true ->
+  (forall e, In e (entries_of its) -> exists a, ssh_auth_lib key_of e = Ok a) ->
+  authorized_keys (ssh_auth_lib key_of) (render its le trail) =
+    Ok (Info (bs "SSH authorized_keys") [] (map (ssh_child (ssh_auth_lib key_of)) (entries_of its))).
+Proof.
+  intros key_of its le trail Hok Hacc. apply authorized_keys_layout; [exact Hok|].
+  apply (model_accepts _ (auth_lib_cr key_of) its Hok Hacc).
+Qed.
+Lemma known_hosts_model : forall key_of its le trail,
+  layout_ok its = true ->
+  (forall e, In e (entries_of its) -> exists a, ssh_hosts_lib key_of e = Ok a) ->
+  known_hosts (ssh_hosts_lib key_of) (render its le trail) =
+    Ok (Info (bs "SSH known_hosts") [] (map (ssh_child (ssh_hosts_lib key_of)) (entries_of its))).
+Proof.
+  intros key_of its le trail Hok Hacc. apply known_hosts_layout; [exact Hok|].
+  apply (model_accepts _ (hosts_lib_cr key_of) its Hok Hacc).
+Qed.
+
+(* ---- trimming ---- *)
+Definition rtrim (l : bytes) : bytes := rev (trim_left_rev (rev l)).
+
+Lemma trim_space_lr : forall l, trim_space l = rtrim (trim_left_sp l).
+Proof. intros. unfold rtrim. apply trim_space_rev. Qed.
+
+Lemma trim_rev_skip_ws : forall u l, forallb is_sp1 u = true -> trim_left_rev (u ++ l) = trim_left_rev l.
+Proof.
+  induction u as [|c u IH]; intros l H; [reflexivity|]. cbn [forallb] in H. apply andb_prop in H as [Hc Hu].
+  cbn [app trim_left_rev]. rewrite Hc. now apply IH.
+Qed.
+
+(* right trimming does not look past a visible ASCII character *)
+Lemma trim_rev_app_graphic : forall g v, graphic g = true -> forall n u, (length u <= n)%nat ->
+  trim_left_rev (u ++ g :: v) = trim_left_rev u ++ g :: v.
+Proof.
+  intros g v Hg. destruct (graphic_not_sp g Hg) as (G1 & G2 & G3 & _ & G5 & G6 & G7).
+  induction n as [|n IH]; intros u Hn.
+  - destruct u; [|cbn in Hn; lia]. cbn [app trim_left_rev]. rewrite G1.
+    destruct v as [|b [|a r]]; [reflexivity| |]; rewrite G7; [reflexivity|]. now rewrite G6.
+  - destruct u as [|c r1].
+    + cbn [app trim_left_rev]. rewrite G1.
+      destruct v as [|b [|a r]]; [reflexivity| |]; rewrite G7; [reflexivity|]. now rewrite G6.
+    + cbn [app trim_left_rev]. cbn [length] in Hn.
+      destruct (is_sp1 c); [apply IH; lia|].
+      destruct r1 as [|b r2]; cbn [app].
+      * rewrite G2. destruct v as [|a r]; [reflexivity|]. now rewrite G5.
+      * cbn [length] in Hn. destruct (is_sp2 b c); [apply IH; lia|].
+        destruct r2 as [|a r3]; cbn [app].
+        -- now rewrite G3.
+        -- cbn [length] in Hn. destruct (is_sp3 a b c); [apply IH; lia|]. reflexivity.
+Qed.
+
+Lemma rtrim_fix_app : forall A g tail, graphic g = true -> rtrim tail = tail -> rtrim (A ++ g :: tail) = A ++ g :: tail.
+Proof.
+  intros A g tail Hg Ht. unfold rtrim in *.
+  assert (Hr : trim_left_rev (rev tail) = rev tail) by (rewrite <- Ht at 2; now rewrite rev_involutive).
+  rewrite rev_app_distr. cbn [rev]. rewrite <- !app_assoc. cbn [app].
+  rewrite (trim_rev_app_graphic g (rev A) Hg (length (rev tail)) (rev tail) (le_n _)), Hr.
+  rewrite rev_app_distr. cbn [rev]. rewrite !rev_involutive, <- app_assoc. reflexivity.
+Qed.
+
+Lemma rtrim_nil : rtrim [] = [].
+Proof. reflexivity. Qed.
+
+Lemma blank_is_sp1 : forall w, forallb blank_char w = true -> forallb is_sp1 w = true.
+Proof.
+  intros w H. rewrite forallb_forall in *. intros c Hc. apply blank_char_sp1. now apply H.
+Qed.
+
+Lemma forallb_rev : forall (f : N -> bool) l, forallb f l = true -> forallb f (rev l) = true.
+Proof. intros f l H. rewrite forallb_forall in *. intros c Hc. apply H. now apply in_rev. Qed.
+
+(* white space around a text that starts with a visible character and does not end in white space is all that TrimSpace removes *)
+Lemma trim_space_core : forall lw x t tw, forallb blank_char lw = true -> forallb blank_char tw = true ->
+  graphic x = true -> rtrim (x :: t) = x :: t -> trim_space (lw ++ (x :: t) ++ tw) = x :: t.
+Proof.
+  intros lw x t tw Hl Ht Hx Hr. rewrite trim_space_lr. rewrite trim_left_skip_ws by exact Hl.
+  cbn [app]. rewrite trim_left_keeps by exact Hx.
+  unfold rtrim in *. change (x :: t ++ tw) with ((x :: t) ++ tw). rewrite rev_app_distr.
+  rewrite trim_rev_skip_ws by (apply forallb_rev; now apply blank_is_sp1). exact Hr.
+Qed.
+
+Definition sp_tab_run (s : bytes) : bool := negb (is_nil s) && forallb is_sp_tab s.
+Definition no_sp_tab (w : bytes) : bool := forallb (fun c => negb (is_sp_tab c)) w.
+Definition starts_blank (t : bytes) : bool := match t with [] => true | c :: _ => is_sp_tab c end.
+
+Lemma sp_tab_blank : forall s, forallb is_sp_tab s = true -> forallb blank_char s = true.
+Proof.
+  intros s H. rewrite forallb_forall in *. intros c Hc. specialize (H c Hc). unfold is_sp_tab in H. unfold blank_char. lia.
+Qed.
+
+Lemma graphic_no_sp_tab : forall w, forallb graphic w = true -> no_sp_tab w = true.
+Proof.
+  intros w H. unfold no_sp_tab. rewrite forallb_forall in *. intros c Hc. specialize (H c Hc).
+  unfold graphic in H. unfold is_sp_tab. lia.
+Qed.
+
+Lemma span_word_app : forall w r, no_sp_tab w = true -> starts_blank r = true -> span_word (w ++ r) = (w, r).
+Proof.
+  induction w as [|c w IH]; intros r Hw Hr.
+  - cbn [app]. destruct r as [|x r]; [reflexivity|]. cbn [starts_blank] in Hr. cbn [span_word]. now rewrite Hr.
+  - cbn [no_sp_tab forallb] in Hw. apply andb_prop in Hw as [Hc Hw]. cbn [app span_word].
+    destruct (is_sp_tab c); [discriminate|]. now rewrite (IH r Hw Hr).
+Qed.
+
+Lemma skip_sp_tab_app : forall s x t, forallb is_sp_tab s = true -> is_sp_tab x = false -> skip_sp_tab (s ++ x :: t) = x :: t.
+Proof.
+  induction s as [|c s IH]; intros x t Hs Hx; cbn [app skip_sp_tab]; [now rewrite Hx|].
+  cbn [forallb] in Hs. apply andb_prop in Hs as [-> Hs]. now apply IH.
+Qed.
+
+(* the field "base64 key, comment": the comment is the rest of the line, trimmed *)
+Lemma parse_key_field_fields : forall key_of s1 b64 tail key k,
+  forallb is_sp_tab s1 = true -> b64 <> [] -> forallb graphic b64 = true ->
+  starts_blank tail = true -> rtrim tail = tail ->
+  B64h.std_decode B64h.Std b64 = Some key -> key_of key = Ok k ->
+  parse_key_field key_of (s1 ++ b64 ++ tail) = Ok (k, trim_space tail).
+Proof.
+  intros key_of s1 b64 tail key k Hs Hne Hg Hst Hrt Hdec Hk. unfold parse_key_field.
+  destruct b64 as [|x t]; [congruence|].
+  assert (Hcore : rtrim ((x :: t) ++ tail) = (x :: t) ++ tail).
+  { destruct (@exists_last _ (x :: t) ltac:(discriminate)) as [A [g E]]. rewrite E.
+    rewrite <- app_assoc. cbn [app]. apply rtrim_fix_app; [|exact Hrt].
+    rewrite forallb_forall in Hg. apply Hg. rewrite E. apply in_or_app. right. now left. }
+  assert (Ht : trim_space (s1 ++ (x :: t) ++ tail) = (x :: t) ++ tail).
+  { pose proof (trim_space_core s1 x (t ++ tail) [] (sp_tab_blank _ Hs) eq_refl) as H.
+    rewrite app_nil_r in H. apply H; [|exact Hcore].
+    cbn [forallb] in Hg. now apply andb_prop in Hg as [Hg _]. }
+  rewrite Ht. rewrite (span_word_app (x :: t) tail (graphic_no_sp_tab _ Hg) Hst).
+  now rewrite Hdec, Hk.
+Qed.
+
+(* ---- an authorized_keys entry, field by field ---- *)
+Record auth_entry := mkauth {
+  ae_lead : bytes;       (* blanks before the entry *)
+  ae_opts : bytes;       (* the options field, [] when there is none *)
+  ae_sep0 : bytes;       (* blanks after the options *)
+  ae_kt : bytes;         (* key type *)
+  ae_sep1 : bytes;
+  ae_b64 : bytes;        (* the base64 of the key blob *)
+  ae_tail : bytes;       (* [] or blanks and the comment *)
+  ae_trail : bytes }.    (* blanks after the entry *)
+
+Definition auth_core (e : auth_entry) : bytes :=
+  (match ae_opts e with [] => [] | o => o ++ ae_sep0 e end) ++ ae_kt e ++ ae_sep1 e ++ ae_b64 e ++ ae_tail e.
+Definition auth_text (e : auth_entry) : bytes := ae_lead e ++ auth_core e ++ ae_trail e.
+
+(* the quoting of an options field as sshd(8) describes it and ParseAuthorizedKey scans it: a double quote opens or
+   closes a quoted string unless a backslash precedes it; None: a blank outside quotes (the field would end there) *)
+Fixpoint quote_state (prev : option N) (inq : bool) (l : bytes) : option (option N * bool) :=
+  match l with
+  | [] => Some (prev, inq)
+  | b :: r =>
+      if negb inq && is_sp_tab b then None
+      else
+        let esc := match prev with Some p => p =? 92 | None => false end in
+        quote_state (Some b) (if (b =? 34) && negb esc then negb inq else inq) r
+  end.
+(* an options field: every quoted string is closed, blanks only inside quotes *)
+Definition opts_ok (o : bytes) : bool :=
+  match quote_state None false o with Some (_, false) => true | _ => false end.
+
+Definition no_crlf (l : bytes) : bool := forallb (fun c => negb (c =? 10) && negb (c =? 13)) l.
+Definition first_ok (w : bytes) : bool := match w with x :: _ => graphic x && negb (x =? 35) | [] => false end.
+
+Definition auth_entry_ok (e : auth_entry) : bool :=
+  forallb blank_char (ae_lead e) && forallb blank_char (ae_trail e)
+  && (match ae_opts e with
+      | [] => is_nil (ae_sep0 e)
+      | o => first_ok o && opts_ok o && sp_tab_run (ae_sep0 e)
+      end)
+  && first_ok (ae_kt e) && no_sp_tab (ae_kt e)
+  && sp_tab_run (ae_sep1 e)
+  && negb (is_nil (ae_b64 e)) && forallb graphic (ae_b64 e)
+  && starts_blank (ae_tail e) && bytes_eqb (rtrim (ae_tail e)) (ae_tail e)
+  && no_crlf (auth_text e).
+
+Lemma bytes_eqb_eq : forall a b, bytes_eqb a b = true -> a = b.
+Proof.
+  induction a as [|x a IH]; intros [|y b] H; try discriminate; [reflexivity|].
+  cbn [bytes_eqb] in H. apply andb_prop in H as [Hx H]. apply N.eqb_eq in Hx. subst y. f_equal. now apply IH.
+Qed.
+
+Lemma opt_scan_app : forall o prev inq p q rest, quote_state prev inq o = Some (p, q) -> rest <> [] ->
+  opt_scan prev inq (o ++ rest) = opt_scan p q rest.
+Proof.
+  induction o as [|b o IH]; intros prev inq p q rest H Hr.
+  - cbn in H. now injection H as -> ->.
+  - cbn [quote_state] in H. cbn [app opt_scan].
+    destruct (negb inq && is_sp_tab b); [discriminate|].
+    destruct (o ++ rest) as [|y z] eqn:E.
+    { destruct o; [cbn in E; congruence|discriminate]. }
+    rewrite <- E. now apply IH.
+Qed.
+
+Lemma opt_scan_stop : forall p s r, is_sp_tab s = true -> opt_scan p false (s :: r) = s :: r.
+Proof. intros p s r H. cbn [opt_scan negb andb]. now rewrite H. Qed.
+
+Lemma span_word_snd_blank : forall a c b, is_sp_tab c = true -> snd (span_word (a ++ c :: b)) <> [].
+Proof.
+  induction a as [|x a IH]; intros c b Hc; cbn [app span_word].
+  - rewrite Hc. discriminate.
+  - destruct (is_sp_tab x); [discriminate|]. specialize (IH c b Hc).
+    destruct (span_word (a ++ c :: b)). exact IH.
+Qed.
+
+Lemma sp_tab_run_split : forall s, sp_tab_run s = true -> exists c r, s = c :: r /\ is_sp_tab c = true /\ forallb is_sp_tab s = true.
+Proof.
+  intros [|c r] H; [discriminate|]. unfold sp_tab_run in H. cbn [is_nil negb andb] in H.
+  exists c, r. split; [reflexivity|]. split; [|exact H]. cbn [forallb] in H. now apply andb_prop in H as [H _].
+Qed.
+
+Section AuthLine.
+  Variable key_of : bytes -> result keyinfo.
+
+  Lemma auth_line_direct : forall l x t r k c, trim_space (cut_at 13 l) = x :: t -> (x =? 35) = false ->
+    snd (span_word (x :: t)) = r -> r <> [] -> parse_key_field key_of r = Ok (k, c) ->
+    auth_line key_of l = Some (Ok (key_attrs k c)).
+  Proof.
+    intros l x t r k c H Hx Hr Hne Hp. unfold auth_line. rewrite H, Hx, Hr.
+    destruct r; [congruence|]. now rewrite Hp.
+  Qed.
+
+  Lemma auth_line_opts : forall l x t r err l2 r2 k c, trim_space (cut_at 13 l) = x :: t -> (x =? 35) = false ->
+    snd (span_word (x :: t)) = r -> r <> [] -> parse_key_field key_of r = Err err ->
+    skip_sp_tab (opt_scan None false (x :: t)) = l2 -> l2 <> [] ->
+    snd (span_word l2) = r2 -> r2 <> [] -> parse_key_field key_of r2 = Ok (k, c) ->
+    auth_line key_of l = Some (Ok (key_attrs k c)).
+  Proof.
+    intros l x t r err l2 r2 k c H Hx Hr Hne Hp Hl2 Hne2 Hr2 Hne3 Hp2. unfold auth_line. rewrite H, Hx, Hr.
+    destruct r; [congruence|]. rewrite Hp, Hl2. destruct l2; [congruence|]. rewrite Hr2.
+    destruct r2; [congruence|]. now rewrite Hp2.
+  Qed.
+
+  (* every well-formed entry line - optional options with quoted blanks, commas and escaped quotes, key type, base64
+     key, optional comment, blanks around - is accepted and yields the key of its base64 field; the comment is the
+     rest of the line, trimmed.  With options: provided the text after the first blank of the line is not itself
+     "base64 of a key blob" (the library tries that first, known finding C06-ssh-quoted-key) *)
+  Theorem auth_line_entry : forall e key k,
+    auth_entry_ok e = true ->
+    B64h.std_decode B64h.Std (ae_b64 e) = Some key -> key_of key = Ok k ->
+    (ae_opts e <> [] -> exists err, parse_key_field key_of (snd (span_word (auth_core e))) = Err err) ->
+    auth_line key_of (auth_text e) = Some (Ok (key_attrs k (trim_space (ae_tail e)))).
+  Proof.
+    intros [lead opts s0 kt s1 b64 tail trail] key k Hok Hdec Hk Hfirst.
+    unfold auth_entry_ok in Hok. cbn [ae_lead ae_opts ae_sep0 ae_kt ae_sep1 ae_b64 ae_tail ae_trail] in *.
+    repeat (apply andb_prop in Hok as [Hok ?]).
+    rename H into Hcrlf, H0 into Hrt, H1 into Hst, H2 into Hg, H3 into Hne, H4 into Hs1, H5 into Hktn, H6 into Hkt, H7 into Hopts, H8 into Htrail.
+    rename Hok into Hlead.
+    apply bytes_eqb_eq in Hrt.
+    assert (Hb64 : b64 <> []) by (destruct b64; [discriminate|discriminate]).
+    destruct (sp_tab_run_split s1 Hs1) as (c1 & r1 & Es1 & Hc1 & Hs1all).
+    (* the field "key type blanks base64 tail" *)
+    assert (Hfield : parse_key_field key_of (s1 ++ b64 ++ tail) = Ok (k, trim_space tail))
+      by (now apply (parse_key_field_fields key_of s1 b64 tail key k)).
+    assert (Hspan : span_word (kt ++ s1 ++ b64 ++ tail) = (kt, s1 ++ b64 ++ tail)).
+    { apply span_word_app; [exact Hktn|]. rewrite Es1. exact Hc1. }
+    assert (Hs1ne : s1 ++ b64 ++ tail <> []) by (rewrite Es1; discriminate).
+    (* the line without the blanks around it *)
+    set (core := auth_core (mkauth lead opts s0 kt s1 b64 tail trail)).
+    assert (Hcore_rt : rtrim core = core).
+    { unfold core, auth_core. cbn [ae_opts ae_sep0 ae_kt ae_sep1 ae_b64 ae_tail].
+      destruct (@exists_last _ b64 Hb64) as [A [g E]]. rewrite E.
+      assert (Hgg : graphic g = true).
+      { rewrite forallb_forall in Hg. apply Hg. rewrite E. apply in_or_app. right. now left. }
+      match goal with |- context [?m ++ kt ++ _] => set (P := m) end.
+      replace (P ++ kt ++ s1 ++ (A ++ [g]) ++ tail) with ((P ++ kt ++ s1 ++ A) ++ g :: tail)
+        by (rewrite <- !app_assoc; reflexivity).
+      now apply rtrim_fix_app. }
+    assert (Hcut : cut_at 13 (auth_text (mkauth lead opts s0 kt s1 b64 tail trail)) = auth_text (mkauth lead opts s0 kt s1 b64 tail trail)).
+    { apply cut_at_none. exact Hcrlf. }
+    unfold auth_text in *. cbn [ae_lead ae_trail] in *. fold core in Hcut |- *.
+    destruct opts as [|o0 o'].
+    - (* no options *)
+      assert (Ecore : core = kt ++ s1 ++ b64 ++ tail) by reflexivity.
+      destruct kt as [|x t]; [discriminate|]. cbn [first_ok] in Hkt. apply andb_prop in Hkt as [Hx Hx35].
+      assert (Htrim : trim_space (lead ++ core ++ trail) = core).
+      { rewrite Ecore. cbn [app]. apply trim_space_core; try assumption; try (rewrite Ecore in Hcore_rt; exact Hcore_rt). }
+      apply (auth_line_direct _ x (t ++ s1 ++ b64 ++ tail) (s1 ++ b64 ++ tail)); try assumption.
+      + rewrite Hcut, Htrim. exact Ecore.
+      + lia.
+      + change (x :: t ++ s1 ++ b64 ++ tail) with ((x :: t) ++ s1 ++ b64 ++ tail). now rewrite Hspan.
+    - (* options first *)
+      set (opts := o0 :: o') in *.
+      apply andb_prop in Hopts as [Hopts Hs0]. apply andb_prop in Hopts as [Ho1 Hoq].
+      destruct (sp_tab_run_split s0 Hs0) as (c0 & r0 & Es0 & Hc0 & Hs0all).
+      assert (Ecore : core = opts ++ s0 ++ kt ++ s1 ++ b64 ++ tail).
+      { unfold core, auth_core, opts. cbn [ae_opts ae_sep0 ae_kt ae_sep1 ae_b64 ae_tail]. now rewrite <- app_assoc. }
+      cbn [first_ok] in Ho1. apply andb_prop in Ho1 as [Hx Hx35].
+      assert (Htrim : trim_space (lead ++ core ++ trail) = core).
+      { rewrite Ecore. unfold opts. cbn [app]. apply trim_space_core; try assumption;
+          try (rewrite Ecore in Hcore_rt; exact Hcore_rt). }
+      destruct (Hfirst ltac:(discriminate)) as [err Herr]. cbn [ae_opts] in Herr. fold core in Herr. rewrite Ecore in Herr.
+      unfold opts_ok in Hoq. destruct (quote_state None false opts) as [[p q]|] eqn:Eq; [|discriminate].
+      destruct q; [discriminate|].
+      destruct kt as [|kx ktl]; [discriminate|].
+      assert (Hkx : is_sp_tab kx = false).
+      { cbn [no_sp_tab forallb] in Hktn. apply andb_prop in Hktn as [H _]. now destruct (is_sp_tab kx). }
+      pose (L1 := opts ++ s0 ++ (kx :: ktl) ++ s1 ++ b64 ++ tail).
+      assert (G1 : trim_space (cut_at 13 (lead ++ core ++ trail)) = o0 :: (o' ++ s0 ++ (kx :: ktl) ++ s1 ++ b64 ++ tail)).
+      { rewrite Hcut, Htrim. exact Ecore. }
+      assert (G2 : (o0 =? 35) = false) by (clear - Hx35; lia).
+      assert (G3 : snd (span_word L1) <> []).
+      { unfold L1. rewrite Es0. cbn [app]. now apply span_word_snd_blank. }
+      assert (G4 : skip_sp_tab (opt_scan None false L1) = (kx :: ktl) ++ s1 ++ b64 ++ tail).
+      { unfold L1. rewrite (opt_scan_app opts None false p false _ Eq) by (rewrite Es0; discriminate).
+        rewrite Es0. cbn [app]. rewrite opt_scan_stop by exact Hc0.
+        change (c0 :: r0 ++ kx :: ktl ++ s1 ++ b64 ++ tail) with ((c0 :: r0) ++ kx :: (ktl ++ s1 ++ b64 ++ tail)).
+        rewrite <- Es0. now rewrite (skip_sp_tab_app s0 kx _ Hs0all Hkx). }
+      assert (G5 : snd (span_word ((kx :: ktl) ++ s1 ++ b64 ++ tail)) = s1 ++ b64 ++ tail) by (now rewrite Hspan).
+      exact (auth_line_opts _ o0 _ (snd (span_word L1)) err _ _ k (trim_space tail) G1 G2 eq_refl G3 Herr G4 ltac:(discriminate) G5 Hs1ne Hfield).
+  Qed.
+End AuthLine.
+
+Lemma no_crlf_no_lf : forall l, no_crlf l = true -> no_lf l = true.
+Proof.
+  intros l H. unfold no_crlf, no_lf in *. rewrite forallb_forall in *. intros c Hc. specialize (H c Hc). lia.
+Qed.
+
+Lemma drop_blank_app : forall w x t, forallb blank_char w = true -> graphic x = true -> drop_blank (w ++ x :: t) = x :: t.
+Proof.
+  induction w as [|c w IH]; intros x t Hw Hx; cbn [app drop_blank].
+  - assert (blank_char x = false) as -> by (unfold graphic in Hx; unfold blank_char; lia). reflexivity.
+  - cbn [forallb] in Hw. apply andb_prop in Hw as [-> Hw]. now apply IH.
+Qed.
+
+Lemma auth_core_head : forall e, auth_entry_ok e = true -> exists x t, auth_core e = x :: t /\ graphic x = true /\ (x =? 35) = false.
+Proof.
+  intros [lead opts s0 kt s1 b64 tail trail] Hok. unfold auth_entry_ok in Hok.
+  cbn [ae_lead ae_opts ae_sep0 ae_kt ae_sep1 ae_b64 ae_tail ae_trail] in Hok.
+  repeat (apply andb_prop in Hok as [Hok ?]).
+  unfold auth_core. cbn [ae_opts ae_sep0 ae_kt ae_sep1 ae_b64 ae_tail].
+  destruct opts as [|o0 o'].
+  - destruct kt as [|x t]; [discriminate|]. cbn [first_ok] in H6. apply andb_prop in H6 as [Hx H35].
+    exists x, (t ++ s1 ++ b64 ++ tail). split; [reflexivity|]. split; [exact Hx|lia].
+  - apply andb_prop in H7 as [H7 _]. apply andb_prop in H7 as [H7 _]. cbn [first_ok] in H7. apply andb_prop in H7 as [Hx H35].
+    exists o0, ((o' ++ s0) ++ kt ++ s1 ++ b64 ++ tail). split; [reflexivity|]. split; [exact Hx|lia].
+Qed.
+
+Lemma auth_text_entry_ok : forall e, auth_entry_ok e = true -> entry_ok (auth_text e) = true.
+Proof.
+  intros e Hok. destruct (auth_core_head e Hok) as (x & t & E & Hx & H35).
+  unfold auth_entry_ok in Hok. repeat (apply andb_prop in Hok as [Hok ?]).
+  unfold entry_ok. unfold auth_text in *. rewrite E. cbn [app]. rewrite drop_blank_app by assumption.
+  rewrite Hx, H35. cbn [negb andb]. rewrite E in H. exact H.
+Qed.
+
+Theorem auth_lib_entry : forall key_of e key k,
+  auth_entry_ok e = true ->
+  B64h.std_decode B64h.Std (ae_b64 e) = Some key -> key_of key = Ok k ->
+  (ae_opts e <> [] -> exists err, parse_key_field key_of (snd (span_word (auth_core e))) = Err err) ->
+  ssh_auth_lib key_of (auth_text e) = Ok (key_attrs k (trim_space (ae_tail e))).
+Proof.
+  intros key_of e key k Hok Hdec Hk Hfirst. unfold ssh_auth_lib.
+  assert (Hn : no_lf (auth_text e) = true).
+  { apply no_crlf_no_lf. unfold auth_entry_ok in Hok. now apply andb_prop in Hok as [_ Hok]. }
+  rewrite (split_lf_last _ Hn). cbn [first_line]. now rewrite (auth_line_entry key_of e key k Hok Hdec Hk Hfirst).
+Qed.
+
+(* ---- files whose entries are given field by field ---- *)
+Inductive aitem : Type :=
+| AEntry (e : auth_entry)
+| ABlank (ws : bytes)
+| AComment (ws text : bytes).
+Definition aitem_item (a : aitem) : item :=
+  match a with AEntry e => IEntry (auth_text e) | ABlank w => IBlank w | AComment w t => IComment w t end.
+Fixpoint aentries (l : list aitem) : list auth_entry :=
+  match l with
+  | [] => []
+  | AEntry e :: r => e :: aentries r
+  | _ :: r => aentries r
+  end.
+Definition aitem_ok (a : aitem) : bool :=
+  match a with AEntry e => auth_entry_ok e | _ => item_ok (aitem_item a) end.
+
+Lemma aentries_of : forall its, entries_of (map aitem_item its) = map auth_text (aentries its).
+Proof. induction its as [|[e|w|w t] its IH]; cbn [map aitem_item entries_of aentries]; [reflexivity|now rewrite IH|exact IH|exact IH]. Qed.
+
+Lemma aitems_layout_ok : forall its, forallb aitem_ok its = true -> layout_ok (map aitem_item its) = true.
+Proof.
+  induction its as [|a its IH]; intros H; [reflexivity|]. cbn [forallb] in H. apply andb_prop in H as [Ha H].
+  cbn [map layout_ok forallb]. fold (layout_ok (map aitem_item its)). rewrite (IH H), andb_true_r.
+  destruct a as [e|w|w t]; cbn [aitem_ok aitem_item item_ok] in *; [now apply auth_text_entry_ok|exact Ha|exact Ha].
+Qed.
+
+Lemma aentries_ok : forall its e, forallb aitem_ok its = true -> In e (aentries its) -> auth_entry_ok e = true.
+Proof.
+  induction its as [|a its IH]; intros e H Hin; [destruct Hin|]. cbn [forallb] in H. apply andb_prop in H as [Ha H].
+  destruct a as [e'|w|w t]; cbn [aentries] in Hin; try (now apply IH).
+  destruct Hin as [<-|Hin]; [exact Ha|now apply IH].
+Qed.
+
+(* what is asked of the key blob of an entry *)
+Definition auth_key_ok (key_of : bytes -> result keyinfo) (e : auth_entry) (k : keyinfo) : Prop :=
+  (exists key, B64h.std_decode B64h.Std (ae_b64 e) = Some key /\ key_of key = Ok k) /\
+  (ae_opts e <> [] -> exists err, parse_key_field key_of (snd (span_word (auth_core e))) = Err err).
+
+Definition auth_child (kinfo : auth_entry -> keyinfo) (e : auth_entry) : info :=
+  Info ssh_key_desc (key_attrs (kinfo e) (trim_space (ae_tail e))) [].
+
+Theorem authorized_keys_fields : forall key_of kinfo its le trail,
+  forallb aitem_ok its = true ->
+  (forall e, In e (aentries its) -> auth_key_ok key_of e (kinfo e)) ->
+  authorized_keys (ssh_auth_lib key_of) (render (map aitem_item its) le trail) =
+    Ok (Info (bs "SSH authorized_keys") [] (map (auth_child kinfo) (aentries its))).
+Proof.
+  intros key_of kinfo its le trail Hok Hkey.
+  assert (Hlib : forall e, In e (aentries its) ->
+            ssh_auth_lib key_of (auth_text e) = Ok (key_attrs (kinfo e) (trim_space (ae_tail e)))).
+  { intros e He. destruct (Hkey e He) as [[key [Hdec Hk]] Hfirst].
+    apply (auth_lib_entry key_of e key (kinfo e)); try assumption. now apply (aentries_ok its). }
+  rewrite authorized_keys_model.
+  - rewrite aentries_of, map_map. f_equal. f_equal. apply map_ext_in. intros e He.
+    unfold ssh_child, lib_attrs, auth_child. now rewrite (Hlib e He).
+  - now apply aitems_layout_ok.
+  - intros l Hl. rewrite aentries_of in Hl. apply in_map_iff in Hl as [e [<- He]]. rewrite (Hlib e He). eauto.
+Qed.
+
+(* non-vacuity: options with a quoted blank, an escaped quote, a comma and a '#'; tabs; comment with blanks inside *)
+Definition toy_key_of (key : bytes) : result keyinfo :=
+  match key with
+  | 0 :: 0 :: 0 :: _ => Ok (bs "ssh-toy", [(bs "Size", dec_of_N (N.of_nat (length key)))])
+  | _ => Err "ssh: unknown key algorithm"
+  end.
+Definition example_auth_entries : list auth_entry :=
+  [mkauth [] [] [] (bs "ssh-toy") [32] (bs "AAAAB3NzaC1y") ([32] ++ bs "me@host") [];
+   mkauth [32] (bs "command=""say \""hi\"" # x"",no-pty") [9] (bs "ssh-toy") [32; 32] (bs "AAAAC3Nz") ([9] ++ bs "two words") [32; 9]].
+Lemma example_auth_ok :
+  forallb auth_entry_ok example_auth_entries = true /\
+  forall e, In e example_auth_entries -> auth_key_ok toy_key_of e (bs "ssh-toy", [(bs "Size", dec_of_N (N.of_nat (length (ae_b64 e) / 4 * 3)))]).
+Proof.
+  split; [vm_compute; reflexivity|].
+  intros e [<-|[<-|[]]]; (split; [eexists; split; vm_compute; reflexivity|]).
+  - intros H. now contradiction H.
+  - intros _. eexists. vm_compute. reflexivity.
+Qed.
+
+(* ---- a known_hosts entry, field by field ---- *)
+(* bytes that cannot begin the UTF-8 encoding of a white-space rune *)
+Definition nolead (c : N) : bool := negb ((c =? 194) || (c =? 225) || (c =? 226) || (c =? 227)).
+Definition safe_byte (c : N) : bool := negb (is_sp1 c) && nolead c.
+Definition safe_word (w : bytes) : bool := negb (is_nil w) && forallb safe_byte w.
+
+Lemma safe_not_sp : forall a, safe_byte a = true -> is_sp1 a = false /\ (forall b, is_sp2 a b = false) /\ (forall b c, is_sp3 a b c = false).
+Proof.
+  intros a H. unfold safe_byte, nolead in H. apply andb_prop in H as [H1 H2].
+  split; [now destruct (is_sp1 a)|]. unfold is_sp2, is_sp3. split; intros; lia.
+Qed.
+Lemma nolead_not_sp : forall b, nolead b = true -> (forall c, is_sp2 b c = false) /\ (forall a c, is_sp3 b a c = false).
+Proof. intros b H. unfold nolead in H. unfold is_sp2, is_sp3. split; intros; lia. Qed.
+
+Lemma graphic_safe : forall c, graphic c = true -> safe_byte c = true.
+Proof. intros c H. unfold graphic in H. unfold safe_byte, nolead, is_sp1. lia. Qed.
+Lemma sp_tab_nolead : forall c, is_sp_tab c = true -> nolead c = true.
+Proof. intros c H. unfold is_sp_tab in H. unfold nolead. lia. Qed.
+Lemma safe_nolead : forall c, safe_byte c = true -> nolead c = true.
+Proof. intros c H. unfold safe_byte in H. now apply andb_prop in H as [_ H]. Qed.
+
+Lemma trim_left_keeps_safe : forall x t, safe_byte x = true -> trim_left_sp (x :: t) = x :: t.
+Proof.
+  intros x t H. destruct (safe_not_sp x H) as (H1 & H2 & H3).
+  cbn [trim_left_sp]. rewrite H1. destruct t as [|b [|c r]]; [reflexivity| |]; rewrite H2; [reflexivity|]. now rewrite H3.
+Qed.
+
+(* no white-space rune ends a text whose bytes cannot begin one and whose last byte is not ASCII white space *)
+Lemma rtrim_nolead : forall l c, forallb nolead (l ++ [c]) = true -> is_sp1 c = false -> rtrim (l ++ [c]) = l ++ [c].
+Proof.
+  intros l c Hn Hc. unfold rtrim. rewrite rev_app_distr. cbn [rev app].
+  assert (Hr : forallb nolead (rev l) = true).
+  { apply forallb_rev. rewrite forallb_app in Hn. now apply andb_prop in Hn as [Hn _]. }
+  assert (E : trim_left_rev (c :: rev l) = c :: rev l).
+  { cbn [trim_left_rev]. rewrite Hc. destruct (rev l) as [|b r2]; [reflexivity|].
+    cbn [forallb] in Hr. apply andb_prop in Hr as [Hb Hr]. destruct (nolead_not_sp b Hb) as [B2 _]. rewrite B2.
+    destruct r2 as [|a r3]; [reflexivity|]. cbn [forallb] in Hr. apply andb_prop in Hr as [Ha _].
+    destruct (nolead_not_sp a Ha) as [_ A3]. now rewrite A3. }
+  rewrite E. cbn [rev]. now rewrite rev_involutive.
+Qed.
+
+Lemma trim_space_core_safe : forall lw x t tw, forallb blank_char lw = true -> forallb blank_char tw = true ->
+  safe_byte x = true -> rtrim (x :: t) = x :: t -> trim_space (lw ++ (x :: t) ++ tw) = x :: t.
+Proof.
+  intros lw x t tw Hl Ht Hx Hr. rewrite trim_space_lr. rewrite trim_left_skip_ws by exact Hl.
+  cbn [app]. rewrite trim_left_keeps_safe by exact Hx.
+  unfold rtrim in *. change (x :: t ++ tw) with ((x :: t) ++ tw). rewrite rev_app_distr.
+  rewrite trim_rev_skip_ws by (apply forallb_rev; now apply blank_is_sp1). exact Hr.
+Qed.
+
+(* bytes.Fields *)
+Lemma fields_word : forall w cur acc l, forallb safe_byte w = true ->
+  fields_go cur acc (w ++ l) = fields_go (rev w ++ cur) acc l.
+Proof.
+  induction w as [|a w IH]; intros cur acc l H; [reflexivity|].
+  cbn [forallb] in H. apply andb_prop in H as [Ha Hw]. destruct (safe_not_sp a Ha) as (H1 & H2 & H3).
+  cbn [app fields_go]. rewrite H1.
+  assert (E : fields_go cur acc (a :: w ++ l) = fields_go (a :: cur) acc (w ++ l)).
+  { cbn [fields_go]. rewrite H1. destruct (w ++ l) as [|b [|c r]]; [reflexivity| |]; rewrite H2; [reflexivity|]. now rewrite H3. }
+  cbn [fields_go] in E. rewrite H1 in E. rewrite E. rewrite IH by exact Hw. cbn [rev]. now rewrite <- app_assoc.
+Qed.
+
+Lemma fields_sep_nil : forall s acc l, forallb is_sp_tab s = true -> fields_go [] acc (s ++ l) = fields_go [] acc l.
+Proof.
+  induction s as [|c s IH]; intros acc l H; [reflexivity|]. cbn [forallb] in H. apply andb_prop in H as [Hc Hs].
+  cbn [app fields_go]. assert (is_sp1 c = true) as -> by (unfold is_sp_tab in Hc; unfold is_sp1; lia).
+  cbn [flush_field]. now apply IH.
+Qed.
+
+Lemma fields_sep : forall s cur acc l, sp_tab_run s = true ->
+  fields_go cur acc (s ++ l) = fields_go [] (flush_field cur acc) l.
+Proof.
+  intros s cur acc l H. destruct (sp_tab_run_split s H) as (c & r & -> & Hc & Hall).
+  cbn [forallb] in Hall. apply andb_prop in Hall as [_ Hr].
+  cbn [app fields_go]. assert (is_sp1 c = true) as -> by (unfold is_sp_tab in Hc; unfold is_sp1; lia).
+  now apply fields_sep_nil.
+Qed.
+
+Definition sep_word (sw : bytes * bytes) : bytes := fst sw ++ snd sw.
+Definition sep_word_ok (sw : bytes * bytes) : bool := sp_tab_run (fst sw) && safe_word (snd sw).
+
+Lemma rev'_rev : forall (A : Type) (l : list A), rev' l = rev l.
+Proof. intros. unfold rev'. now rewrite <- rev_alt. Qed.
+
+Lemma fields_words : forall rest w acc, safe_word w = true -> forallb sep_word_ok rest = true ->
+  fields_go (rev w) acc (concat (map sep_word rest)) = rev acc ++ w :: map snd rest.
+Proof.
+  induction rest as [|[s w2] rest IH]; intros w acc Hw Hrest.
+  - cbn [map concat fields_go]. unfold safe_word in Hw. apply andb_prop in Hw as [Hne _].
+    unfold flush_field. destruct (rev w) as [|y z] eqn:E.
+    { destruct w; [discriminate|]. cbn [rev] in E. destruct (rev w); discriminate. }
+    rewrite <- E. rewrite !rev'_rev, rev_involutive. reflexivity.
+  - cbn [forallb] in Hrest. apply andb_prop in Hrest as [Hsw Hrest]. unfold sep_word_ok in Hsw. cbn [fst snd] in Hsw.
+    apply andb_prop in Hsw as [Hs Hw2].
+    cbn [map concat]. unfold sep_word at 1. cbn [fst snd]. rewrite <- !app_assoc.
+    rewrite (fields_sep s) by exact Hs.
+    assert (Hflush : flush_field (rev w) acc = w :: acc).
+    { unfold flush_field. unfold safe_word in Hw. apply andb_prop in Hw as [Hne _].
+      destruct (rev w) as [|y z] eqn:E.
+      { destruct w; [discriminate|]. cbn [rev] in E. destruct (rev w); discriminate. }
+      rewrite <- E. now rewrite rev'_rev, rev_involutive. }
+    rewrite Hflush.
+    pose proof Hw2 as Hw2'. unfold safe_word in Hw2'. apply andb_prop in Hw2' as [_ Hw2s].
+    rewrite (fields_word w2 [] (w :: acc) _ Hw2s). rewrite app_nil_r.
+    rewrite (IH w2 (w :: acc) Hw2 Hrest). cbn [rev map snd]. now rewrite <- app_assoc.
+Qed.
+
+Lemma fields_line : forall w rest, safe_word w = true -> forallb sep_word_ok rest = true ->
+  fields (w ++ concat (map sep_word rest)) = w :: map snd rest.
+Proof.
+  intros w rest Hw Hrest. unfold fields.
+  pose proof Hw as Hw'. unfold safe_word in Hw'. apply andb_prop in Hw' as [_ Hws].
+  rewrite (fields_word w [] [] _ Hws), app_nil_r. now rewrite (fields_words rest w [] Hw Hrest).
+Qed.
+
+Lemma rtrim_safe_end : forall a w, forallb nolead a = true -> safe_word w = true -> rtrim (a ++ w) = a ++ w.
+Proof.
+  intros a w Ha Hw. unfold safe_word in Hw. apply andb_prop in Hw as [Hne Hs].
+  destruct (@exists_last _ w ltac:(destruct w; [discriminate|discriminate])) as [w' [c E]]. subst w.
+  rewrite app_assoc. rewrite forallb_app in Hs. apply andb_prop in Hs as [Hs' Hc]. cbn [forallb] in Hc.
+  rewrite andb_true_r in Hc. destruct (safe_not_sp c Hc) as [C1 _].
+  apply rtrim_nolead; [|exact C1]. rewrite !forallb_app, Ha. cbn [forallb andb].
+  rewrite (safe_nolead c Hc). rewrite andb_true_r. rewrite forallb_forall in *. intros y Hy. now apply safe_nolead, Hs'.
+Qed.
+
+Lemma rtrim_words : forall rest a w, forallb nolead a = true -> safe_word w = true -> forallb sep_word_ok rest = true ->
+  rtrim (a ++ w ++ concat (map sep_word rest)) = a ++ w ++ concat (map sep_word rest).
+Proof.
+  induction rest as [|[s w2] rest IH]; intros a w Ha Hw Hrest.
+  - cbn [map concat]. rewrite app_nil_r. now apply rtrim_safe_end.
+  - cbn [forallb] in Hrest. apply andb_prop in Hrest as [Hsw Hrest]. unfold sep_word_ok in Hsw. cbn [fst snd] in Hsw.
+    apply andb_prop in Hsw as [Hs Hw2]. cbn [map concat]. unfold sep_word at 1 3. cbn [fst snd].
+    replace (a ++ w ++ (s ++ w2) ++ concat (map sep_word rest)) with ((a ++ w ++ s) ++ w2 ++ concat (map sep_word rest))
+      by (now rewrite <- !app_assoc).
+    apply IH; try assumption. rewrite !forallb_app, Ha. cbn [andb].
+    unfold safe_word in Hw. apply andb_prop in Hw as [_ Hw]. unfold sp_tab_run in Hs. apply andb_prop in Hs as [_ Hs].
+    apply andb_true_intro. split; rewrite forallb_forall in *; intros y Hy; [now apply safe_nolead, Hw|now apply sp_tab_nolead, Hs].
+Qed.
+
+Lemma join_space : forall ws b, join [32] (b :: ws) = b ++ concat (map (fun w => 32 :: w) ws).
+Proof.
+  induction ws as [|w r IH]; intros b; [cbn; now rewrite app_nil_r|].
+  change (join [32] (b :: w :: r)) with (b ++ [32] ++ join [32] (w :: r)). rewrite IH. reflexivity.
+Qed.
+
+Record hosts_entry := mkhosts {
+  he_lead : bytes;
+  he_marker : option (bytes * bytes);    (* "@cert-authority" / "@revoked" and the blanks after it *)
+  he_hosts : bytes;                      (* the host patterns, comma separated *)
+  he_sep1 : bytes; he_kt : bytes;        (* key type (the library ignores it) *)
+  he_sep2 : bytes; he_b64 : bytes;
+  he_comment : list (bytes * bytes);     (* blanks and a word, at most twice (once after a marker) *)
+  he_trail : bytes }.
+
+Definition hosts_words (e : hosts_entry) : bytes * list (bytes * bytes) :=
+  let body := (he_sep1 e, he_kt e) :: (he_sep2 e, he_b64 e) :: he_comment e in
+  match he_marker e with
+  | Some (m, s) => (m, (s, he_hosts e) :: body)
+  | None => (he_hosts e, body)
+  end.
+Definition hosts_core (e : hosts_entry) : bytes :=
+  fst (hosts_words e) ++ concat (map sep_word (snd (hosts_words e))).
+Definition hosts_text (e : hosts_entry) : bytes := he_lead e ++ hosts_core e ++ he_trail e.
+
+Definition starts_with (c : N) (w : bytes) : bool := match w with x :: _ => x =? c | [] => false end.
+
+Definition hosts_entry_ok (e : hosts_entry) : bool :=
+  forallb blank_char (he_lead e) && forallb blank_char (he_trail e)
+  && safe_word (fst (hosts_words e)) && first_ok (fst (hosts_words e))
+  && forallb sep_word_ok (snd (hosts_words e))
+  && (match he_marker e with
+      | Some (m, _) => starts_with 64 m && Nat.leb (length (he_comment e)) 1
+      | None => negb (starts_with 64 (he_hosts e)) && Nat.leb (length (he_comment e)) 2
+      end)
+  && forallb graphic (he_b64 e)
+  && no_crlf (hosts_text e).
+
+Section HostsLine.
+  Variable key_of : bytes -> result keyinfo.
+
+  Lemma hosts_line_direct : forall l x t fs fs' k c, trim_space (cut_at 13 l) = x :: t -> (x =? 35) = false ->
+    snd (span_word (x :: t)) <> [] -> fields (x :: t) = fs ->
+    Nat.ltb (length fs) 3 || Nat.ltb 5 (length fs) = false ->
+    strip_marker fs = fs' ->
+    parse_key_field key_of (join [32] (drop 2 fs')) = Ok (k, c) ->
+    hosts_line key_of l = Some (Ok (hosts_attr (hd [] fs') :: key_attrs k c)).
+  Proof.
+    intros l x t fs fs' k c H Hx Hne Hf Hlen Hm Hp. unfold hosts_line. rewrite H, Hx.
+    destruct (snd (span_word (x :: t))); [congruence|]. rewrite Hf, Hlen, Hm, Hp. reflexivity.
+  Qed.
+
+  Lemma hosts_line_generic : forall lead trail w rest hosts kt b64 comment key k,
+    forallb blank_char lead = true -> forallb blank_char trail = true ->
+    safe_word w = true -> first_ok w = true -> forallb sep_word_ok rest = true ->
+    (2 <= length rest <= 4)%nat ->
+    strip_marker (w :: map snd rest) = hosts :: kt :: b64 :: map snd comment ->
+    b64 <> [] -> forallb graphic b64 = true -> forallb sep_word_ok comment = true ->
+    no_crlf (lead ++ (w ++ concat (map sep_word rest)) ++ trail) = true ->
+    B64h.std_decode B64h.Std b64 = Some key -> key_of key = Ok k ->
+    hosts_line key_of (lead ++ (w ++ concat (map sep_word rest)) ++ trail) =
+      Some (Ok (hosts_attr hosts :: key_attrs k (join [32] (map snd comment)))).
+  Proof.
+    intros lead trail w rest hosts kt b64 comment key k Hlead Htrail Hw Hfirst Hrest Hlenr Hfs' Hb64 Hg Hcw Hcrlf Hdec Hk.
+    destruct w as [|x t]; [discriminate|]. cbn [first_ok] in Hfirst. apply andb_prop in Hfirst as [Hx Hx35].
+    assert (Hrt : rtrim ((x :: t) ++ concat (map sep_word rest)) = (x :: t) ++ concat (map sep_word rest)).
+    { exact (rtrim_words rest [] (x :: t) eq_refl Hw Hrest). }
+    set (text := lead ++ ((x :: t) ++ concat (map sep_word rest)) ++ trail) in *.
+    assert (Hcut : cut_at 13 text = text) by (apply cut_at_none; exact Hcrlf).
+    assert (Htrim : trim_space text = x :: (t ++ concat (map sep_word rest))).
+    { unfold text. cbn [app]. apply trim_space_core; assumption. }
+    assert (Hfields : fields (x :: t ++ concat (map sep_word rest)) = (x :: t) :: map snd rest).
+    { exact (fields_line (x :: t) rest Hw Hrest). }
+    set (cw := map snd comment) in *.
+    destruct rest as [|s0 r0]; [cbn in Hlenr; lia|].
+    assert (Hs0 : sp_tab_run (fst s0) = true).
+    { cbn [forallb] in Hrest. apply andb_prop in Hrest as [Hr _]. unfold sep_word_ok in Hr. now apply andb_prop in Hr as [Hr _]. }
+    assert (Hblank : snd (span_word (x :: t ++ concat (map sep_word (s0 :: r0)))) <> []).
+    { cbn [map concat]. unfold sep_word at 1.
+      destruct (sp_tab_run_split _ Hs0) as (c & r & -> & Hc & _).
+      replace (x :: t ++ ((c :: r) ++ snd s0) ++ concat (map sep_word r0))
+        with ((x :: t) ++ c :: (r ++ snd s0 ++ concat (map sep_word r0))) by (cbn [app]; now rewrite <- !app_assoc).
+      now apply span_word_snd_blank. }
+    assert (Hlen : Nat.ltb (length ((x :: t) :: map snd (s0 :: r0))) 3 || Nat.ltb 5 (length ((x :: t) :: map snd (s0 :: r0))) = false).
+    { cbn [length map]. rewrite map_length. cbn [length] in Hlenr. apply orb_false_iff. split; apply Nat.ltb_ge; lia. }
+    set (tail := concat (map (fun w0 => 32 :: w0) cw)).
+    assert (Hcwsafe : forallb safe_word cw = true).
+    { unfold cw. rewrite forallb_forall in *. intros y Hy. apply in_map_iff in Hy as [[s y'] [<- Hy]].
+      specialize (Hcw _ Hy). unfold sep_word_ok in Hcw. now apply andb_prop in Hcw as [_ Hcw]. }
+    assert (Htail : starts_blank tail = true /\ rtrim tail = tail /\ trim_space tail = join [32] cw).
+    { unfold tail. destruct cw as [|c1 cr]; [split; [reflexivity|split; reflexivity]|].
+      split; [reflexivity|].
+      cbn [forallb] in Hcwsafe. apply andb_prop in Hcwsafe as [Hc1 Hcr].
+      assert (Erest2 : concat (map (fun w0 => 32 :: w0) cr) = concat (map sep_word (map (fun w0 => ([32], w0)) cr))).
+      { rewrite map_map. reflexivity. }
+      assert (Hokr : forallb sep_word_ok (map (fun w0 => ([32], w0)) cr) = true).
+      { rewrite forallb_forall in *. intros sw Hsw. apply in_map_iff in Hsw as [y [<- Hy]]. unfold sep_word_ok. cbn [fst snd].
+        now rewrite (Hcr y Hy). }
+      cbn [map concat]. rewrite Erest2.
+      pose proof (rtrim_words _ [32] c1 eq_refl Hc1 Hokr) as R1.
+      pose proof (rtrim_words _ [] c1 eq_refl Hc1 Hokr) as R2.
+      split; [exact R1|].
+      rewrite join_space, Erest2.
+      destruct c1 as [|y yt]; [discriminate|].
+      pose proof (trim_space_core_safe [32] y (yt ++ concat (map sep_word (map (fun w0 => ([32], w0)) cr))) [] eq_refl eq_refl) as T.
+      rewrite app_nil_r in T. apply T; [|exact R2].
+      unfold safe_word in Hc1. apply andb_prop in Hc1 as [_ Hc1]. cbn [forallb] in Hc1. now apply andb_prop in Hc1 as [Hc1 _]. }
+    destruct Htail as (Hst & Hrtail & Htt).
+    assert (Hfield : parse_key_field key_of (join [32] (drop 2 (hosts :: kt :: b64 :: cw))) = Ok (k, join [32] cw)).
+    { cbn [drop]. rewrite join_space. fold tail. rewrite <- Htt.
+      exact (parse_key_field_fields key_of [] b64 tail key k eq_refl Hb64 Hg Hst Hrtail Hdec Hk). }
+    assert (G1 : trim_space (cut_at 13 text) = x :: t ++ concat (map sep_word (s0 :: r0))) by (now rewrite Hcut, Htrim).
+    assert (G2 : (x =? 35) = false) by (clear - Hx35; lia).
+    exact (hosts_line_direct _ x _ _ _ k _ G1 G2 Hblank Hfields Hlen Hfs' Hfield).
+  Qed.
+
+  Lemma not_at_fields : forall (w : bytes) (r : list bytes), starts_with 64 w = false -> strip_marker (w :: r) = w :: r.
+  Proof. intros [|x t] r H; [reflexivity|]. cbn [starts_with] in H. cbn [strip_marker]. now rewrite H. Qed.
+
+  (* every well-formed known_hosts line - optional marker, host patterns, key type, base64 key, up to two comment
+     words (one after a marker), blanks around - yields the key of its base64 field after the host list; the comment
+     is the comment words joined by single blanks *)
+  Theorem hosts_line_entry : forall e key k,
+    hosts_entry_ok e = true ->
+    B64h.std_decode B64h.Std (he_b64 e) = Some key -> key_of key = Ok k ->
+    hosts_line key_of (hosts_text e) =
+      Some (Ok (hosts_attr (he_hosts e) :: key_attrs k (join [32] (map snd (he_comment e))))).
+  Proof.
+    intros [lead marker hosts s1 kt s2 b64 comment trail] key k Hok Hdec Hk.
+    unfold hosts_entry_ok, hosts_text, hosts_core, hosts_words in *.
+    cbn [he_lead he_marker he_hosts he_sep1 he_kt he_sep2 he_b64 he_comment he_trail] in *.
+    destruct marker as [[m s]|]; cbn [fst snd] in *;
+      repeat (apply andb_prop in Hok as [Hok ?]);
+      rename Hok into Hlead, H into Hcrlf, H0 into Hg, H1 into Hmark, H2 into Hrest, H3 into Hfirst, H4 into Hw, H5 into Htrail;
+      apply andb_prop in Hmark as [Hm Hc]; apply Nat.leb_le in Hc;
+      pose proof Hrest as Hrest'; cbn [forallb] in Hrest'; repeat (apply andb_prop in Hrest' as [? Hrest']).
+    - assert (Hb64 : b64 <> []).
+      { match goal with Hb : sep_word_ok (s2, b64) = true |- _ =>
+          unfold sep_word_ok, safe_word in Hb; cbn [fst snd] in Hb; apply andb_prop in Hb as [_ Hb]; apply andb_prop in Hb as [Hb _] end.
+        destruct b64; [discriminate|discriminate]. }
+      apply (hosts_line_generic lead trail m _ hosts kt b64 comment key k); try assumption.
+      + cbn [length]. lia.
+      + destruct m as [|x t]; [discriminate|]. cbn [starts_with] in Hm. cbn [strip_marker]. now rewrite Hm.
+    - assert (Hb64 : b64 <> []).
+      { match goal with Hb : sep_word_ok (s2, b64) = true |- _ =>
+          unfold sep_word_ok, safe_word in Hb; cbn [fst snd] in Hb; apply andb_prop in Hb as [_ Hb]; apply andb_prop in Hb as [Hb _] end.
+        destruct b64; [discriminate|discriminate]. }
+      apply (hosts_line_generic lead trail hosts _ hosts kt b64 comment key k); try assumption.
+      + cbn [length]. lia.
+      + cbn [map snd]. apply not_at_fields. now destruct (starts_with 64 hosts).
+  Qed.
+End HostsLine.
+
+Lemma hosts_text_entry_ok : forall e, hosts_entry_ok e = true -> entry_ok (hosts_text e) = true.
+Proof.
+  intros e Hok. unfold hosts_entry_ok in Hok. repeat (apply andb_prop in Hok as [Hok ?]).
+  unfold entry_ok, hosts_text, hosts_core in *.
+  destruct (fst (hosts_words e)) as [|x t]; [discriminate|]. cbn [first_ok] in H3. apply andb_prop in H3 as [Hx H35].
+  cbn [app]. rewrite drop_blank_app by assumption. rewrite Hx, H35. cbn [negb andb]. exact H.
+Qed.
+
+Theorem hosts_lib_entry : forall key_of e key k,
+  hosts_entry_ok e = true ->
+  B64h.std_decode B64h.Std (he_b64 e) = Some key -> key_of key = Ok k ->
+  ssh_hosts_lib key_of (hosts_text e) = Ok (hosts_attr (he_hosts e) :: key_attrs k (join [32] (map snd (he_comment e)))).
+Proof.
+  intros key_of e key k Hok Hdec Hk. unfold ssh_hosts_lib.
+  assert (Hn : no_lf (hosts_text e) = true).
+  { apply no_crlf_no_lf. unfold hosts_entry_ok in Hok. now apply andb_prop in Hok as [_ Hok]. }
+  rewrite (split_lf_last _ Hn). cbn [first_line]. now rewrite (hosts_line_entry key_of e key k Hok Hdec Hk).
+Qed.
+
+Inductive hitem : Type :=
+| HEntry (e : hosts_entry)
+| HBlank (ws : bytes)
+| HComment (ws text : bytes).
+Definition hitem_item (a : hitem) : item :=
+  match a with HEntry e => IEntry (hosts_text e) | HBlank w => IBlank w | HComment w t => IComment w t end.
+Fixpoint hentries (l : list hitem) : list hosts_entry :=
+  match l with
+  | [] => []
+  | HEntry e :: r => e :: hentries r
+  | _ :: r => hentries r
+  end.
+Definition hitem_ok (a : hitem) : bool :=
+  match a with HEntry e => hosts_entry_ok e | _ => item_ok (hitem_item a) end.
+
+Lemma hentries_of : forall its, entries_of (map hitem_item its) = map hosts_text (hentries its).
+Proof. induction its as [|[e|w|w t] its IH]; cbn [map hitem_item entries_of hentries]; [reflexivity|now rewrite IH|exact IH|exact IH]. Qed.
+
+Lemma hitems_layout_ok : forall its, forallb hitem_ok its = true -> layout_ok (map hitem_item its) = true.
+Proof.
+  induction its as [|a its IH]; intros H; [reflexivity|]. cbn [forallb] in H. apply andb_prop in H as [Ha H].
+  cbn [map layout_ok forallb]. fold (layout_ok (map hitem_item its)). rewrite (IH H), andb_true_r.
+  destruct a as [e|w|w t]; cbn [hitem_ok hitem_item item_ok] in *; [now apply hosts_text_entry_ok|exact Ha|exact Ha].
+Qed.
+
+Lemma hentries_ok : forall its e, forallb hitem_ok its = true -> In e (hentries its) -> hosts_entry_ok e = true.
+Proof.
+  induction its as [|a its IH]; intros e H Hin; [destruct Hin|]. cbn [forallb] in H. apply andb_prop in H as [Ha H].
+  destruct a as [e'|w|w t]; cbn [hentries] in Hin; try (now apply IH).
+  destruct Hin as [<-|Hin]; [exact Ha|now apply IH].
+Qed.
+
+Definition hosts_child (kinfo : hosts_entry -> keyinfo) (e : hosts_entry) : info :=
+  Info ssh_key_desc (hosts_attr (he_hosts e) :: key_attrs (kinfo e) (join [32] (map snd (he_comment e)))) [].
+
+Theorem known_hosts_fields : forall key_of kinfo its le trail,
+  forallb hitem_ok its = true ->
+  (forall e, In e (hentries its) -> exists key, B64h.std_decode B64h.Std (he_b64 e) = Some key /\ key_of key = Ok (kinfo e)) ->
+  known_hosts (ssh_hosts_lib key_of) (render (map hitem_item its) le trail) =
+    Ok (Info (bs "SSH known_hosts") [] (map (hosts_child kinfo) (hentries its))).
+Proof.
+  intros key_of kinfo its le trail Hok Hkey.
+  assert (Hlib : forall e, In e (hentries its) ->
+            ssh_hosts_lib key_of (hosts_text e) = Ok (hosts_attr (he_hosts e) :: key_attrs (kinfo e) (join [32] (map snd (he_comment e))))).
+  { intros e He. destruct (Hkey e He) as [key [Hdec Hk]].
+    apply (hosts_lib_entry key_of e key (kinfo e)); try assumption. now apply (hentries_ok its). }
+  rewrite known_hosts_model.
+  - rewrite hentries_of, map_map. f_equal. f_equal. apply map_ext_in. intros e He.
+    unfold ssh_child, lib_attrs, hosts_child. now rewrite (Hlib e He).
+  - now apply hitems_layout_ok.
+  - intros l Hl. rewrite hentries_of in Hl. apply in_map_iff in Hl as [e [<- He]]. rewrite (Hlib e He). eauto.
+Qed.
+
+Definition example_hosts_entries : list hosts_entry :=
+  [mkhosts [] None (bs "example.com,10.0.0.1") [32] (bs "ssh-toy") [32] (bs "AAAAB3NzaC1y") [([32], bs "two"); ([9; 32], bs "words")] [];
+   mkhosts [9] (Some (bs "@cert-authority", [32; 32])) (bs "*.example.org") [9] (bs "ssh-toy") [32] (bs "AAAAC3Nz") [([32], bs "ca")] [32]].
+Lemma example_hosts_ok :
+  forallb hosts_entry_ok example_hosts_entries = true /\
+  forall e, In e example_hosts_entries -> exists key, B64h.std_decode B64h.Std (he_b64 e) = Some key /\ toy_key_of key = Ok (bs "ssh-toy", [(bs "Size", dec_of_N (N.of_nat (length (he_b64 e) / 4 * 3)))]).
+Proof.
+  split; [vm_compute; reflexivity|].
+  intros e [<-|[<-|[]]]; eexists; split; vm_compute; reflexivity.
+Qed.
